@@ -89,6 +89,8 @@ ALLOWED_OVERRIDE = [r"^assets$", r"^assets\.\[\*\]$", r"^assets\.\[\*\]\.amount$
 
 
 def run(W, chk):
+    from rules.common import borrow
+    borrow(W, chk, "C01", {"PROV-withdraw-same-vector"}, "a withdrawal changes reserve amounts only, by denom: the stored asset list is never truncated or re-aligned")
     # ---- creation guards: each alone cuts the creating save
     for (name, cuts, extra) in CREATE_GUARDS:
         no_effects(chk, W, "CUT-create", "pool_manager", ("CreatePool",), cuts, " [%s]" % name, effects=pool_writes, extra=extra)
